@@ -74,7 +74,7 @@ class Node:
                 for index in range(first_invalid, len(self)):
                     self.__children[index].__parent_index = index
             elif len(value) > 0:
-                for index in range(indices.start, indices.start + indices.step*len(value)):
+                for index in indices:
                     self.__children[index].__parent_index = index
 
         else:
